@@ -113,12 +113,25 @@ def validate(res, tier, traces, wd):
         write_ndjson(path, [{k: t[k] for k in ("ci", "cls", "P", "d", "NP", "NE", "roles", "fr", "cons", "lmis")} for t in chunk])
         r = tlc("MembersTrace", cfg, os.path.join(wd, "trace"), env=dict(TRACE_FILE=path), timeout=3000)
         res.add_tlc("MembersTrace", r)
+        cv = res.cov.setdefault("MembersTrace", {"MembersTrace.TInit": [0, 0], "MembersTrace.Step": [0, 0]})
+        cv["MembersTrace.TInit"] = [cv["MembersTrace.TInit"][0] + len(chunk)] * 2
+        cv["MembersTrace.Step"] = [cv["MembersTrace.Step"][0] + r["distinct"] - len(chunk)] * 2
         vd = verdicts(r["out"], len(chunk))
         for i, t in enumerate(chunk):
             v = vd[i + 1]
             out.append((t, v["bad"], v["n"], v["tight"], v["ov"], v["unk"]))
         os.remove(path)
     return out
+
+
+def witness(w):
+    """the TLA+ value <<vector, ...>> (vector = <<<<n, d>>, ...>>) printed by ToString, as fractions"""
+    try:
+        from core import _parse_tla_value
+        vs = _parse_tla_value(w)
+        return "[" + ", ".join("(" + ", ".join(str(n) if d == 1 else "%d/%d" % (n, d) for n, d in v) + ")" for v in vs) + "]"
+    except Exception:
+        return w
 
 
 def pstr(t):
@@ -131,7 +144,8 @@ def judge(res, verdicts):
     seen_sig = set()
     total_ev = 0
     n_ov = n_unk = 0
-    for t, bad, nev, tight, ov, unk in verdicts:
+    # shortest histories first: a signature is reported with the simplest history that shows it
+    for t, bad, nev, tight, ov, unk in sorted(verdicts, key=lambda v: (len(v[0]["h"]), v[0]["cls"], v[0]["P"], v[0]["hist"])):
         cls = t["cls"]
         n_ov += ov
         n_unk += unk
@@ -142,7 +156,7 @@ def judge(res, verdicts):
         tight_by_class.setdefault(cls, set()).update(tight)
         if nev > 0 and names:
             nontriv.add((cls, pstr(t), t["hist"]))
-        for cname, tag in sorted(map(tuple, bad)):
+        for cname, tag, wit in sorted(map(tuple, bad)):
             if cname.startswith("MACHINERY"):
                 raise Machinery("%s: %s (class %s, history %s)" % (cname, tag, cls, t["hist"]))
             sig = "C03|%s|%s|%s" % (cls, cname, tag)
@@ -150,9 +164,9 @@ def judge(res, verdicts):
                 continue        # one violation per signature: the first (shortest) history that shows it
             seen_sig.add(sig)
             res.violation(sig, "%s%s, history %s: the generated constraint '%s' is violated by the real member '%s' of "
-                               "the class at some grid assignment of the sampled points (the relaxation excludes a "
-                               "real execution)" % (cls, pstr(t), t["hist"], cname, tag),
-                          dict(kind="history", cls=cls, P=t["P"], h=t["h"]))
+                               "the class (the relaxation excludes a real execution); leaf points = %s with roles %s"
+                          % (cls, pstr(t), t["hist"], cname, tag, witness(wit), [r["t"] for r in t["roles"]]),
+                          dict(kind="history", tier=res.tier, cls=cls, P=t["P"], h=t["h"]))
     res.distinct_nontrivial = len(nontriv)
     res.evaluations = total_ev
     res.extra["member_assignment_evaluations"] = total_ev
@@ -206,6 +220,7 @@ def run(tier):
                 "constraints); non-trivial = (class, parameters, history) with at least one generated constraint "
                 "evaluated on at least one (member, assignment); evaluations = (member, assignment, subgradient "
                 "choice) tuples on which all generated constraints were evaluated exactly")
+    res.exhaustive = tier == "thorough"     # thorough: every history of length <= 3 on every case, every member, whole grid
     step = max(1, len(verdicts) // 5)
     res.samples = [dict(cls=t["cls"], P=pstr(t), history=t["hist"], constraints=sorted({c["nm"] for c in t["cons"]}),
                         lmis=len(t["lmis"]), evaluations=nev, tight=sorted(tight))
@@ -231,10 +246,13 @@ def run(tier):
 
 def replay(path):
     rp = json.load(open(path))["replay"]
-    res = Result(PID, "quick")
+    tier = rp.get("tier", "quick")
+    res = Result(PID, tier)
     wd = workdir(PID + "-replay")
-    cases = model_run(res, "quick", wd)
-    run_items(res, "quick", wd, [dict(cls=rp["cls"], P=rp["P"], h=rp["h"])])
+    cases = [c for c in model_run(res, tier, wd) if c["cls"] == rp["cls"] and c["P"] == rp["P"]]
+    if not cases:
+        raise Machinery("replay: case %s %r is not in the %s grid of spec/Members.tla" % (rp["cls"], rp["P"], tier))
+    run_items(res, tier, wd, [dict(ci=cases[0]["ci"], cls=rp["cls"], P=rp["P"], h=rp["h"])])
     res.samples = [rp]
     rmwork(PID + "-replay")
     return finish(res)
